@@ -11,6 +11,12 @@ claimed={
  "C14":dict(design="§7 C14",
    text="Bounded symbolic model checking of the real httpStatusFromCode / codeFromHttpStatus / statFromResponse SSA with the code (2^32 values), the HTTP status (all ints) and the status message bytes symbolic; the expected table is parsed from DefaultErrorRenderer's doc comment on every run. The tables are loop-free so the only bound is the message length.",
    note="Trusted: engine SSA semantics, fmt %d digit encoding (Horner relation), net/textproto canonicalisation of concrete keys run natively, z3/cvc5. The renderer's 499 rule and custom renderers are exercised end-to-end under C02/C11 harnesses, not here."),
+ "C12":dict(design="§7 C12",
+   text="Bounded symbolic model checking of the real name-resolution code: in-process Invoke/NewStream (method[0], SplitN, HandlerMap lookup, FindUnaryMethod/FindStreamingMethod) with the method name an arbitrary byte string up to the cap on both entry points, and the HTTP client/server path construction (path.Join real SSA on both sides, Server.RegisterService and HandleServices) with symbolic base path and method name. Every path shows: a handler runs iff the name is exactly its own and the entry point matches; otherwise a status error (Unimplemented / NotFound) and no handler; run-time panics are implicit assertions.",
+   note="Trusted: engine SSA semantics, context model, protobuf structural stubs, ServeMux = exact match, URL escaping assumed to round-trip (not modelled). Names/base paths longer than the cap, ServeMux pattern syntax and escaping are outside the claim. Schedules: non-preemptive only (name resolution is sequential)."),
+ "C17":dict(design="§7 C17",
+   text="Bounded symbolic model checking of InterceptClientConn / interceptedChannel: wrapping depth, nil-ness of each interceptor per layer, forwarding vs short-circuiting, base channel kind, unary vs stream call and the method name are symbolic; assertions: every applicable interceptor exactly once outermost first, arguments and results unchanged, nil/nil returns the argument, Unwrap returns the wrapped channel, cc is the underlying *grpc.ClientConn at any depth.",
+   note="Trusted: engine SSA semantics. Depth beyond the bound is outside the claim; a zero *grpc.ClientConn stands for a real connection (only its identity matters)."),
 }
 pending_reason="check not built yet (engine layers under construction); see DESIGN.md §9"
 na={}
